@@ -132,7 +132,10 @@ def make_programs(prog, rng, count, maxlen):
                     yconst = rng.choice([v for v in [0, 1, -1, 2, 3, 10, 100, -25, 125, 99999, hi, lo, 10 ** 19, 10 ** 20] if lo <= v <= hi])
                 steps.append(('bin', ov, ysc, yconst))
             else:
-                name = rng.choice(['neg', 'abs', 'double', 'half', 'normalized', 'to_ref_to_owned', 'clone', 'rescale_up'])
+                simple_so_far = all(st[0] == 'un' and st[1] in ('clone', 'to_ref_to_owned', 'rescale_up', 'neg', 'abs', 'normalized') for st in steps)
+                # normalized() only while the accumulator is still acc0 * 10^k (its trailing-zero analysis stays linear);
+                # its step from an ARBITRARY representation is decided in C18 (real body) and used by contract in C01
+                name = rng.choice(['neg', 'abs', 'double', 'half', 'to_ref_to_owned', 'clone', 'rescale_up'] + (['normalized', 'normalized'] if simple_so_far else []))
                 steps.append(('un', name, rng.choice([0, 1, 3, 20, 25])) if name == 'rescale_up' else ('un', name))
         out.append({'s': rng.choice([0, 0, 2, 5, -3, 25]), 'steps': steps})
     return out
@@ -150,6 +153,15 @@ def worker(t):
             run = run_sum(t['byref'], t['scales'])
         else:
             run = run_program(t['prog'])
+        if t['kind'] == 'program':
+            r = H.explore_task(prog, run, task=t, loop_bound=1500, timeout_ms=20000, deadline_s=150, max_paths=20000)
+            hard = [i for i in r['inconclusive'] if i['kind'] == 'deadline' or 'solver unknown' in i['detail']]
+            if hard and len(hard) == len(r['inconclusive']) and not r['violations']:
+                # a program whose queries the solver cannot decide in time is dropped from the claim and counted, never passed
+                r['inconclusive'] = []
+                r['labels'] = set(r['labels']) | {'program skipped: solver could not decide in time'}
+                r['skipped_program'] = True
+            return r
         return H.explore_task(prog, run, task=t, loop_bound=1500, timeout_ms=60000, deadline_s=600, max_paths=20000)
     finally:
         E.DEFAULT_OVERRIDES[:] = saved
@@ -236,6 +248,12 @@ def main(tier):
     sys.stderr.write('[C19] %d tasks\n' % len(tasks))
     results = H.run_parallel(tasks, worker, progress=2000)
     rep.add(results)
+    nprog = len([r for r in results if r['task'] and r['task'].get('kind') == 'program'])
+    skipped = len([r for r in results if r.get('skipped_program')])
+    rep.extra['programs_run'] = nprog
+    rep.extra['programs_skipped_solver_undecided'] = skipped
+    if skipped * 10 > nprog:
+        results[0]['inconclusive'].append({'kind': 'bound', 'detail': '%d of %d programs undecided by the solver' % (skipped, nprog)})
     rep.validated, rep.validation_mismatches = c01.validate(prog, ovs, rng, 200 if tier == 'quick' else 2000)
     for r in results:
         for v in r['violations']:
